@@ -23,7 +23,7 @@ ASSUMPTIONS = [
     "the static convert_to_sg_motl is given the class' own (index-reset) table, as the class paths do",
     "subtomogram numbers are integers of either sign (parity defines the half-set: -3 is odd)",
 ]
-BUDGET = {"quick": {"examples": 1800, "seconds": 85}, "thorough": {"examples": 5000, "seconds": 540}}
+BUDGET = {"quick": {"examples": 1100, "seconds": 85}, "thorough": {"examples": 5000, "seconds": 540}}
 
 PAIRS = [  # (cryoCAT field, STOPGAP column) - written from the STOPGAP motive-list documentation, not imported from cryoCAT
     ("subtomo_id", "subtomo_num"), ("tomo_id", "tomo_num"), ("object_id", "object"), ("x", "orig_x"), ("y", "orig_y"),
@@ -241,6 +241,22 @@ def run(case):
         if ok_e:
             bad = oracle.em_motl_mismatch("as_em.em", back.df)
             out.check(bad is None, f"write_em:file_{bad}", "")
+    # a list loaded from STOPGAP data is exported again with the OTHER numbering request: the new file follows the new
+    # request (motl_idx = subtomogram number without reset, 1..N with reset), not what the loaded file happened to hold
+    if im == "class_path" and ok and not out.violations:
+        ok_o, other = call(out, "StopgapMotl(path)", lambda: cryomotl.StopgapMotl(star_path))
+        if ok_o:
+            ok_o, _ = call(out, "write_out", lambda: other.write_out("other.star", reset_index=not reset))
+        if ok_o:
+            try:
+                bo = oracle.star_tokenize(open("other.star", newline="").read())[0]
+                idx_o = [float(r[bo["labels"].index("motl_idx")]) for r in bo["rows"]]
+                sub_o = [float(r[bo["labels"].index("subtomo_num")]) for r in bo["rows"]]
+                want_o = [float(i + 1) for i in range(len(sub_o))] if not reset else sub_o
+                out.label("reexport_with_other_numbering")
+                out.check(idx_o == want_o, "reexport:motl_idx_follows_the_loaded_file_not_the_request", f"reset={not reset}: {idx_o[:6]} vs {want_o[:6]}")
+            except (ValueError, IndexError) as e:
+                out.fail("reexport:other_numbering_not_in_star_subset", str(e))
     # a list loaded from STOPGAP form is exported again after update_coordinates: the file must hold the updated table
     if im == "class_path" and not out.violations:
         ok, again = call(out, "StopgapMotl(path)", lambda: cryomotl.StopgapMotl(star_path))
